@@ -25,7 +25,8 @@ def ofEV : EV → Json
   | EV.fin k => ofInt k
 
 /-- ops:
-  {"op":"mask","scale":S,"goals":[g…],"data":[[v…]…],"distinct":b?,"cast":[[v…]…]?}
+  {"op":"mask","scale":S,"goals":[g…],"data":[[v…]…],"distinct":b?,"cast":[[v…]…]?,"repairs":{"wide":b,"sweep_first":b}?}
+     repairs select the model of a repaired code version (default: the code as it is)
      v = integer (value·2^S) | "inf" | "-inf"
      → {"model":[b…]|"ValueError","spec":[b…]|null,"branches":[…],"H":{wf,cast,sweep,key},"cast_ok":b}
   {"op":"exh","scale":S,"goals":[g…],"alphabet":[v…],"rows":r,"cols":c,"from":a,"count":k,"full":b?}
@@ -40,10 +41,12 @@ def handle (req : Json) : Json :=
           (field? req "data").bind rows? with
     | some S, some goals, some data =>
       let distinct := ((field? req "distinct").bind getBool?).getD true
-      let cfg := stdCfg S
+      let rp := field? req "repairs"
+      let cfg := stdCfg S (((rp.bind (field? · "wide")).bind getBool?).getD false)
+        (((rp.bind (field? · "sweep_first")).bind getBool?).getD false)
       let castOk : Bool :=
         match (field? req "cast").bind rows? with
-        | some c => c == data.map (·.map cfg.cast)
+        | some c => c == data.map (·.map (castF32 S))
         | none => true
       match goals.mapM parseGoal with
       | none =>
@@ -74,7 +77,9 @@ def handle (req : Json) : Json :=
       match goals.mapM parseGoal with
       | none => err "malformed"
       | some gs =>
-        let cfg := stdCfg S
+        let rp := field? req "repairs"
+        let cfg := stdCfg S (((rp.bind (field? · "wide")).bind getBool?).getD false)
+          (((rp.bind (field? · "sweep_first")).bind getBool?).getD false)
         let b := alpha.length
         let bits (m : List Bool) : Nat := (m.zipIdx.map fun p => if p.1 then 2 ^ p.2 else 0).foldl (· + ·) 0
         let full := ((field? req "full").bind getBool?).getD false
